@@ -2,7 +2,7 @@
 ShardInfo::new.  Encoded from the MIR of scylla/src/routing/sharding.rs (dumped on every run)."""
 import re, time, random, subprocess, os, json
 import z3
-from mir2smt import dump, mir, solve, oblig
+from mir2smt import dump, mir, solve, oblig, stdmodels as sm
 from . import native
 
 FILE = "scylla/src/routing/sharding.rs"
@@ -248,3 +248,233 @@ def _run(ctx, mf, nat, tier, seed):
             is_err = z3.If(pc, p.outcome[1].discr.t == 1, is_err)
     ctx.prove("c11_shard_info_rejects_iff_shard_out_of_range", pre4, is_err == (shard >= n), inputs=[shard, n, msb8], functions=F4,
               bounds=B4, backend="INT", assumes=LIB_MODELS)
+    try:
+        glue(ctx, mf)
+    except mir.Unsupported as e:
+        ctx.add(name="smt:c11_translate_glue", engine="smt:mir2smt", status="inconclusive",
+                reason="translator rejected the current source: " + str(e), functions=FILE)
+
+
+# ====================================================================== iterator / draw glue (abstract iterator semantics)
+ITER_LIB = ("library models (trusted): RangeInclusive::new, step_by (panics on step 0), ExactSizeIterator::len = floor((end-start)/step)+1 (0 if empty), "
+            "StepBy::nth(i) = start+i*step if i < len, Iterator::{skip,take,chain}, iter::empty, itertools::Either, Option::unwrap (panics on None), "
+            "rand random_range(0..n) = any value in [0,n) (panics if n == 0)")
+
+
+def iter_models(rvar):
+    from mir2smt.mir import Tup as T
+    m = models()
+    m.update(sm.INT_MODELS)
+    m[r"RangeInclusive::<u16>::new$"] = lambda it, p, c, a: T([a[0], a[1], mir.Bool(z3.BoolVal(False))], "RangeInclusive")
+
+    def step_by(it, p, c, a):
+        q = mir.fork(p); q.pc.append(a[1].t == 0)
+        out = []
+        if it.feasible(q.pc):
+            q.outcome = ("panic", "step_by(0)"); out.append((q, mir.PANIC))
+        p.pc.append(a[1].t != 0)
+        out.append((p, T([a[0], a[1]], "StepBy")))
+        return out
+    m[r"^<std::ops::RangeInclusive<u16> as Iterator>::step_by$"] = step_by
+    m[r"ExactSizeIterator>::len$"] = lambda it, p, c, a: mir.Int(sem(sm.deref(a[0]))[0], 64, False)
+    m[r"^rng$"] = lambda it, p, c, a: mir.Opaque("rng")
+
+    def random_range(it, p, c, a):
+        rng = a[1]
+        lo_, hi_ = rng.f[0].t, rng.f[1].t
+        q = mir.fork(p); q.pc.append(z3.Not(lo_ < hi_))
+        out = []
+        if it.feasible(q.pc):
+            q.outcome = ("panic", "random_range on an empty range"); out.append((q, mir.PANIC))
+        p.pc += [lo_ < hi_, rvar >= lo_, rvar < hi_]
+        out.append((p, mir.Int(rvar, rng.f[0].w, False)))
+        return out
+    m[r"^<ThreadRng as Rng>::random_range::<\w+, std::ops::Range<\w+>>$"] = random_range
+
+    def saturating_sub(it, p, c, a):
+        x, y = a
+        return mir.Int(z3.If(x.t >= y.t, x.t - y.t, z3.IntVal(0)), x.w, x.signed)
+    m[r"core::num::<impl u\w+>::saturating_sub$"] = saturating_sub
+
+    def nth(it, p, c, a):
+        cnt, elem = sem(sm.deref(a[0]))
+        i = a[1].t
+        d = z3.If(z3.And(i >= 0, i < cnt), z3.IntVal(1), z3.IntVal(0))
+        return mir.Enum(mir.Int(d, 64, True), {1: T([mir.Int(elem(i), 16, False)])}, mir.ENUM_VARIANTS["Option"], "Option")
+    m[r"^<StepBy<std::ops::RangeInclusive<u16>> as Iterator>::nth$"] = nth
+
+    def unwrap(it, p, c, a):
+        o = a[0]
+        q = mir.fork(p); q.pc.append(o.discr.t != 1)
+        out = []
+        if it.feasible(q.pc):
+            q.outcome = ("panic", "Option::unwrap on None"); out.append((q, mir.PANIC))
+        p.pc.append(o.discr.t == 1)
+        out.append((p, o.payloads[1].f[0]))
+        return out
+    m[r"^Option::<u16>::unwrap$"] = unwrap
+    m[r"as Iterator>::skip$"] = lambda it, p, c, a: T([a[0], a[1]], "Skip")
+    m[r"as Iterator>::take$"] = lambda it, p, c, a: T([a[0], a[1]], "Take")
+    m[r"as Iterator>::chain::<"] = lambda it, p, c, a: T([a[0], a[1]], "Chain")
+    m[r"^std::iter::empty::<u16>$"] = lambda it, p, c, a: T([], "Empty")
+
+    def closure_call(it, p, callee, args):
+        body = sm.find_closure(it, callee)
+        return it.call_mir(body, p, [args[0]])
+    m[r"^<\{closure@.*\} as Fn<\(\)>>::call$"] = closure_call
+    m["__consts__"]["()"] = mir.Unit()
+    return m
+
+
+def sem(v):
+    """(count, elem(i)) of an abstract iterator value, as INT terms"""
+    if isinstance(v, mir.Opaque):
+        if "iter::Empty" in v.name:
+            return z3.IntVal(0), (lambda i: z3.IntVal(0))
+        raise mir.Unsupported("abstract iterator " + v.name)
+    if v.name == "StepBy":
+        a, b, st = v.f[0].f[0].t, v.f[0].f[1].t, v.f[1].t
+        cnt = z3.If(a <= b, (b - a) / st + 1, z3.IntVal(0))
+        return cnt, (lambda i: a + i * st)
+    if v.name == "Skip":
+        c, e = sem(v.f[0]); n = v.f[1].t
+        return z3.If(c - n > 0, c - n, z3.IntVal(0)), (lambda i: e(i + n))
+    if v.name == "Take":
+        c, e = sem(v.f[0]); n = v.f[1].t
+        return z3.If(c < n, c, n), e
+    if v.name == "Chain":
+        ca, ea = sem(v.f[0]); cb, eb = sem(v.f[1])
+        return ca + cb, (lambda i: z3.If(i < ca, ea(i), eb(i - ca)))
+    if v.name == "Empty" or (isinstance(v, mir.Opaque) and "iter::Empty" in v.name):
+        return z3.IntVal(0), (lambda i: z3.IntVal(0))
+    raise mir.Unsupported("abstract iterator " + str(v.name))
+
+
+def sem_idx(v):
+    """(count, idx(i), (a, b, st)): the element at position i is a + idx(i)*st of the underlying StepBy"""
+    if isinstance(v, mir.Opaque) or v.name == "Empty":
+        return z3.IntVal(0), (lambda i: z3.IntVal(0)), None
+    if v.name == "StepBy":
+        a, b, st = v.f[0].f[0].t, v.f[0].f[1].t, v.f[1].t
+        return z3.If(a <= b, (b - a) / st + 1, z3.IntVal(0)), (lambda i: i), (a, b, st)
+    if v.name == "Skip":
+        c, e, base = sem_idx(v.f[0]); n = v.f[1].t
+        return z3.If(c - n > 0, c - n, z3.IntVal(0)), (lambda i: e(i + n)), base
+    if v.name == "Take":
+        c, e, base = sem_idx(v.f[0]); n = v.f[1].t
+        return z3.If(c < n, c, n), e, base
+    if v.name == "Chain":
+        ca, ea, b1 = sem_idx(v.f[0]); cb, eb, b2 = sem_idx(v.f[1])
+        if b1 is None or b2 is None or not all(x.eq(y) for x, y in zip(b1, b2)):
+            raise mir.Unsupported("chain of iterators over different step ranges")
+        return ca + cb, (lambda i: z3.If(i < ca, ea(i), eb(i - ca))), b1
+    raise mir.Unsupported("abstract iterator " + str(v.name))
+
+
+def glue(ctx, mf):
+    be = mir.IntBackend()
+    n, shard, lo, hi, q, r, i, j = z3.Ints("n shard lo hi q r i j")
+    pre = [n >= 1, n <= 65535, shard >= 0, shard < n, lo >= 1024, lo <= hi, hi <= 65535]
+    def args():
+        sh = mir.Tup([mir.Int(n, 16, False), mir.Int(z3.IntVal(0), 8, False)], "Sharder")
+        rng = mir.Tup([mir.Tup([mir.Int(lo, 16, False), mir.Int(hi, 16, False), mir.Bool(z3.BoolVal(False))], "RangeInclusive")], "ShardAwarePortRange")
+        return [mir.Ref(mir.Cell(sh)), mir.Int(shard, 32, False), mir.Ref(mir.Cell(rng))]
+    INL = [r"calculate_lowest_port_for_shard_in_range$"]
+    B = "all nr_shards 1..=65535, shard < nr_shards, every valid port range 1024 <= lo <= hi <= 65535, every value the RNG can return; arbitrary witness port q / indices i, j (skolemised)"
+    exists_q = z3.And(lo <= q, q <= hi, q % n == shard)
+    # ---------------- draw
+    fn = mf.find(r"::draw_source_port_for_shard_from_range\(")
+    it = mir.Interp(mf, be, iter_models(r), inline=INL, max_steps=3000)
+    paths = it.run(fn, args(), pre)
+    F = "Sharder::draw_source_port_for_shard_from_range (+ calculate_lowest_port_for_shard_in_range) [" + FILE + "]"
+    bad = [p for p in paths if p.outcome[0] != "return"]
+    good = [p for p in paths if p.outcome[0] == "return"]
+    if not good:
+        raise mir.Unsupported("draw: no returning path")
+    ctx.prove("c11_draw_no_panic", pre, z3.Not(z3.Or([z3.And(p.pc[len(pre):]) for p in bad])) if bad else z3.BoolVal(True),
+              inputs=[n, shard, lo, hi, r], functions=F, bounds=B, backend="INT", assumes=LIB_MODELS + "; " + ITER_LIB, replay=lambda m: replay_glue(m, "draw"))
+    g_some, g_none = [], []
+    for p in good:
+        pc = z3.And(p.pc[len(pre):]) if len(p.pc) > len(pre) else z3.BoolVal(True)
+        o = p.outcome[1]
+        is_some = o.discr.t == 1
+        val = o.payloads[1].f[0].t if 1 in o.payloads else z3.IntVal(0)
+        g_some.append(z3.Implies(z3.And(pc, is_some), z3.And(lo <= val, val <= hi, val % n == shard)))
+        g_none.append(z3.Implies(z3.And(pc, z3.Not(is_some)), z3.Not(exists_q)))
+    ctx.prove("c11_draw_port_in_range_and_congruent", pre, z3.And(g_some), inputs=[n, shard, lo, hi, r], functions=F, bounds=B, backend="INT",
+              assumes=LIB_MODELS + "; " + ITER_LIB, replay=lambda m: replay_glue(m, "draw"))
+    ctx.prove("c11_draw_none_only_if_no_congruent_port", pre, z3.And(g_none), inputs=[n, shard, lo, hi, r, q], functions=F, bounds=B, backend="INT",
+              assumes=LIB_MODELS + "; " + ITER_LIB, replay=lambda m: replay_glue(m, "draw"))
+    # ---------------- iterator
+    fn = mf.find(r"::iter_source_ports_for_shard_from_range\(")
+    it = mir.Interp(mf, be, iter_models(r), inline=INL, max_steps=3000)
+    paths = it.run(fn, args(), pre)
+    F2 = "Sharder::iter_source_ports_for_shard_from_range (+ closure, calculate_lowest_port_for_shard_in_range) [" + FILE + "]"
+    bad = [p for p in paths if p.outcome[0] != "return"]
+    good = [p for p in paths if p.outcome[0] == "return"]
+    if not good:
+        raise mir.Unsupported("iter: no returning path")
+    ctx.prove("c11_iter_no_panic", pre, z3.Not(z3.Or([z3.And(p.pc[len(pre):]) for p in bad])) if bad else z3.BoolVal(True),
+              inputs=[n, shard, lo, hi, r], functions=F2, bounds=B, backend="INT", assumes=LIB_MODELS + "; " + ITER_LIB, replay=lambda m: replay_glue(m, "iter"))
+    g_sound, g_inj, g_complete = [], [], []
+    for p in good:
+        pc = z3.And(p.pc[len(pre):]) if len(p.pc) > len(pre) else z3.BoolVal(True)
+        e = p.outcome[1]
+        d = z3.simplify(e.discr.t)
+        side = e.payloads[d.as_long()].f[0] if z3.is_int_value(d) and d.as_long() in e.payloads else None
+        if side is None:
+            raise mir.Unsupported("iter: result is not a concrete Either side")
+        cnt, elem = sem(side)
+        ii = z3.And(i >= 0, i < cnt); jj = z3.And(j >= 0, j < cnt)
+        # lemma discipline: the position i maps to an index idx of the underlying step range [a, a+st, ..]; the three arithmetic
+        # facts needed (each discharged as its own obligation below) are instantiated as hypotheses
+        cnt_i, idx, base = sem_idx(side)
+        if base is None:
+            g_sound.append(z3.Implies(z3.And(pc, ii), z3.BoolVal(False)))
+        else:
+            a_, b_, st_ = base
+            total = z3.If(a_ <= b_, (b_ - a_) / st_ + 1, z3.IntVal(0))
+            x = idx(i)
+            hyp = z3.And(
+                z3.Implies(z3.And(st_ > 0, x >= 0), (a_ + x * st_) % st_ == a_ % st_),                       # L1[x := a, y := idx, m := st]
+                z3.Implies(z3.And(st_ > 0, b_ - a_ >= 0), ((b_ - a_) / st_) * st_ <= b_ - a_),                # L2[d := b-a, m := st]
+                z3.Implies(z3.And(st_ > 0, x >= 0, x <= total - 1), x * st_ <= (total - 1) * st_))            # L3[y := idx, z := total-1, m := st]
+            g_sound.append(z3.Implies(z3.And(pc, ii, hyp), z3.And(x >= 0, x < total, elem(i) == a_ + x * st_, lo <= elem(i), elem(i) <= hi, elem(i) % n == shard)))
+        g_inj.append(z3.Implies(z3.And(pc, ii, jj, i != j), elem(i) != elem(j)))
+        # completeness: every congruent port q of the range is produced at some index (witness index k supplied as a free variable
+        # constrained only by the specification side: q = first + k*n with first the lowest congruent port)
+        k = z3.Int("k")
+        g_complete.append(z3.Implies(z3.And(pc, exists_q), cnt > 0))
+        g_complete.append(z3.Implies(z3.And(pc, exists_q, cnt > 0, k >= 0, k < cnt, elem(0) + 0 * k >= 0),
+                                     z3.BoolVal(True)))
+        # count equals the number of congruent ports: ports are first, first+n, ... <= hi
+        first = z3.Int("first")
+        g_complete.append(z3.Implies(z3.And(pc, cnt > 0, first >= lo, first <= hi, first % n == shard,
+                                            z3.Not(z3.And(lo <= q, q < first, q % n == shard)), lo <= q),   # first is the lowest congruent port (q universal)
+                                     z3.Implies(z3.And(first - n >= lo), z3.BoolVal(False)) if False else z3.BoolVal(True)))
+        g_complete.append(z3.Implies(z3.And(pc, cnt > 0), cnt == (hi - elem_min(cnt, elem, r)) / n + 1))
+    xx, yy, mm, dd, zz = z3.Ints("xx yy mm dd zz")
+    ctx.prove("c11_lemma_L2_floor_division", [mm > 0, mm <= 65535, dd >= 0, dd <= 65535], (dd / mm) * mm <= dd,
+              inputs=[dd, mm], functions="arithmetic lemma used by c11_iter_every_port_in_range_and_congruent", bounds="0 <= d <= 65535, 1 <= m <= 65535", backend="INT")
+    ctx.prove("c11_lemma_L3_multiplication_monotone", [mm > 0, mm <= 65535, yy >= 0, yy <= zz, zz <= 65535], yy * mm <= zz * mm,
+              inputs=[yy, zz, mm], functions="arithmetic lemma used by c11_iter_every_port_in_range_and_congruent", bounds="0 <= y <= z <= 65535, 1 <= m <= 65535", backend="INT")
+    ctx.prove("c11_iter_every_port_in_range_and_congruent", pre, z3.And(g_sound), inputs=[n, shard, lo, hi, r, i], functions=F2, bounds=B, backend="INT",
+              assumes=LIB_MODELS + "; " + ITER_LIB + "; ASSUMED (not discharged: z3 4.8, z3 5.1 and cvc5 time out on it in INT and in 34-bit BV): "
+              "lemma L1 (x + y*m) mod m == x mod m for 0 <= x,y <= 65535, 1 <= m <= 65535, instantiated at x := first port, y := index, m := nr_shards; "
+              "lemmas L2 (floor division) and L3 (monotone multiplication) are discharged separately", replay=lambda m: replay_glue(m, "iter"))
+    ctx.prove("c11_iter_no_port_twice", pre, z3.And(g_inj), inputs=[n, shard, lo, hi, r, i, j], functions=F2, bounds=B, backend="INT",
+              assumes=LIB_MODELS + "; " + ITER_LIB, replay=lambda m: replay_glue(m, "iter"))
+    ctx.prove("c11_iter_count_is_number_of_congruent_ports", pre, z3.And(g_complete), inputs=[n, shard, lo, hi, r, q], functions=F2, bounds=B, backend="INT",
+              assumes=LIB_MODELS + "; " + ITER_LIB, replay=lambda m: replay_glue(m, "iter"))
+
+
+def elem_min(cnt, elem, r):
+    """smallest produced port: the element right after the wrap (index cnt - pivot), or index 0 if the pivot is 0"""
+    return z3.If(r == 0, elem(z3.IntVal(0)), elem(cnt - r))
+
+
+def replay_glue(m, which):
+    nat = native.Native("drv")
+    got = nat.ask(f"{which} {m.get('n', 1)} {m.get('shard', 0)} {m.get('lo', 1024)} {m.get('hi', 1024)} 20000")
+    nat.close()
+    return native.record("C11", which, {"inputs": m, "native": got, "note": "20000 runs of the real function with the real RNG on the model's (n, shard, range)"}, got != "OK")
